@@ -163,7 +163,7 @@ impl Prop for C01P {
                 // type (two cases in three): a checker that equates the two types lets a stuck
                 // program through
                 let mut r = Rng::for_case(ctx.seed, 6, idx);
-                let c = crate::coerce::gen_coercion(&mut r, idx % 3 != 0);
+                let c = crate::coerce::gen_any(&mut r, idx % 3 != 0);
                 let src = print(&c.h, &Style::varied(&mut r), idx).text;
                 check_program(ctx, &src, false, "coercion", false);
             }
@@ -195,7 +195,7 @@ impl Prop for C01P {
             }
             "near-miss-coercions" => {
                 let mut r = Rng::for_case(seed, 6, idx);
-                let c = crate::coerce::gen_coercion(&mut r, idx % 3 != 0);
+                let c = crate::coerce::gen_any(&mut r, idx % 3 != 0);
                 print(&c.h, &Style::varied(&mut r), idx).text
             }
             "perturbed-programs" => {
